@@ -17,7 +17,7 @@ def run(tier, seed):
         run_hex(rep, f"H5xST29L direct prune={prune}", universe="H5", values=("S", "T29", "L"), prune=prune, props=P)
         run_hex(rep, f"H7xSL direct prune={prune}", universe="H7", values=("S", "L"), prune=prune, props=P)
         run_hex(rep, f"H4xST29L batch<=1 prune={prune}", universe="H4", values=("S", "T29", "L"), prune=prune, props=P, batch_len=1,
-                exits=("commit", "abort"))
+                exits=("commit", "abort", "cancel") + (() if prune else ("wfail",)))
         run_hex(rep, f"HW4xSL direct prune={prune} (slots 0 and 15, branch value)", universe="HW4", values=("S", "L"), prune=prune, props=P)
         run_hex(rep, f"HXXLxSL direct prune={prune} (130-byte keys)", universe="HXXL", values=("S", "L"), prune=prune, props=P)
         run_hex(rep, f"HVxSL direct prune={prune} (empty key, 20-byte key, two 34-byte keys)", universe="HV", values=("S", "L"), prune=prune, props=P)
